@@ -122,7 +122,7 @@ SumOver(s, f(_)) == SumFunction([x \in s |-> f(x)])
 Tr_C08_begin(A, B) ==
     LET bg == Begun(A, B)
     IN bg # {} =>
-         /\ \A o \in bg : B.now >= OCfg(o).est * K
+         /\ \A o \in bg : B.now >= EstT(o)
          /\ cfg.arrays - A.tel.use
               + SumOver({o \in ObsNames : A.obs[o].status # "FINISHED" /\ B.obs[o].status = "FINISHED"},
                         LAMBDA o : OCfg(o).demand)      \* arrays handed back in the same telescope step
@@ -163,9 +163,9 @@ TelRan(A, B) ==
 Tr_C08_ontime(A, B) ==
     (TelRan(A, B) /\ SystemIdle(A)) =>
       LET due == {o \in ObsNames : A.obs[o].status = "WAITING" /\ A.obs[o].ast = NoneT
-                                    /\ OCfg(o).est * K = B.now}
+                                    /\ DueStep(o) = B.now}
           overdue == {o \in ObsNames : A.obs[o].status = "WAITING" /\ A.obs[o].ast = NoneT
-                                        /\ OCfg(o).est * K < B.now}
+                                        /\ DueStep(o) < B.now}
       IN (due # {} /\ overdue = {}) => \E o \in due : B.obs[o].ast = B.now
 
 (* ------------------------------- C09 ------------------------------------ *)
@@ -282,9 +282,9 @@ LatencyC == 3
 AllTasks == PlanTasks
 SlowestRuntime(t) == SetMax({MaxI(1, RawRuntime(t[1], t[2], m)) : m \in Machines})
 MaxWait(t) == SetMax({0} \cup {CeilDiv(Vol(t[1], p, t[2]), Bw(m)) : p \in Pred(t[1], t[2]), m \in Machines})
-MoveTime(o) == CeilDiv(ObsVol(o), MinI(cfg.hotRate, cfg.coldRate)) + 1
+MoveTime(o) == CeilDiv(ObsVol(o), MaxI(1, MinI(cfg.hotRate, cfg.coldRate))) + 1
 SerialBound ==
-    SetMax({OCfg(o).est : o \in ObsNames})
+    SetMax({DueStep(o) \div K : o \in ObsNames})
     + SumFunction([o \in ObsNames |-> OCfg(o).dur + 2 * MoveTime(o)])
     + SumFunction([t \in AllTasks |-> SlowestRuntime(t) + Extra(t) + MaxWait(t)])
     + LatencyC * (Card(ObsNames) + Card(AllTasks))
